@@ -49,9 +49,9 @@ V("c03-isdag-inverted", "C03", "fire", UT, "        topological_ordering(A)\n   
 V("c03-lganm-nogate", "C03", "fire", LG, "        if not utils.is_dag(W):\n            raise ValueError(\"The given graph is not a DAG.\")\n", "", rule="GATE",
   what="LGANM constructor gate dropped")
 V("c03-lganm-gate-triu", "C03", "fire", LG, "if not utils.is_dag(W):", "if not utils.is_dag(np.triu(W)):", rule="GATE", what="gate tests another matrix")
-V("c03-lganm-gate-late", "C03", "fire", LG, "        if not utils.is_dag(W):\n            raise ValueError(\"The given graph is not a DAG.\")\n        self.W = W.copy()\n",
-  "        self.W = W.copy()\n        if not utils.is_dag(W):\n            raise ValueError(\"The given graph is not a DAG.\")\n", rule="GATE",
-  what="matrix stored before the gate")
+V("c03-silent-lganm-gate-late", "C03", "silent", LG, "        if not utils.is_dag(W):\n            raise ValueError(\"The given graph is not a DAG.\")\n        self.W = W.copy()\n",
+  "        self.W = W.copy()\n        if not utils.is_dag(W):\n            raise ValueError(\"The given graph is not a DAG.\")\n",
+  what="matrix stored before the (unconditional) gate: a constructor that raises leaves no object behind")
 V("c03-anm-swallow", "C03", "fire", AN, "        self.ordering = utils.topological_ordering(A)\n",
   "        try:\n            self.ordering = utils.topological_ordering(A)\n        except ValueError:\n            self.ordering = list(range(len(A)))\n",
   rule="GATE.anm", what="ANM swallows the ValueError")
@@ -711,3 +711,38 @@ V("sp-c05-shape", "C05", "silent", ND, "        if len(X) != len(x):\n", "      
 V("sp-c12-fstring-error", "C12", "silent", GE, "import numpy as np\n", "import numpy as np\n_UNUSED_MESSAGE_PREFIX = 'sempler: '\n", what="module constant added")
 V("sp-c05-mask-overlap", "C05", "silent", ND, "        if len(set(Y) & set(X)) > 0:\n            raise ValueError(\"X and Y are not disjoint.\")\n", "        in_X = np.zeros(len(self.mean), dtype=bool)\n        in_X[X] = True\n        if in_X[Y].any():\n            raise ValueError(\"X and Y are not disjoint.\")\n", what="membership mask for the overlap test")
 V("sp-c01-scaled-rows-wrong", "C01", "fire", LG, "        covariance = A @ np.diag(variances) @ A.T\n", "        covariance = (A.T * variances) @ A\n", rule="FORMULA.covariance", what="A^T diag(v) A instead of A diag(v) A^T")
+V("c05-len-guard-skips-scalars", "C05", "fire", ND, "        if len(X) != len(x):\n", "        if np.ndim(x) > 0 and len(X) != len(x):\n", rule="GUARD.conditional.len", what="size check weakened by a further conjunct", accept_inconclusive=True)
+
+# ------------------------------------------------------------------------------- round-3 inspired: caches on the model (history dependence)
+V("c01-observational-cache", "C01", "fire", LG, "        # Must copy as they can be changed by interventions, but we\n", "        if population and not (do_interventions or shift_interventions) and getattr(self, '_obs', None) is not None:\n            return self._obs\n        # Must copy as they can be changed by interventions, but we\n",
+  more=[(LG, "        else:\n            return distribution\n", "        else:\n            if not (do_interventions or shift_interventions):\n                self._obs = distribution\n            return distribution\n")],
+  rule="HISTORY.sample", what="observational law cached under a key that ignores noise interventions", accept_inconclusive=True)
+V("c04-mixing-cache", "C04", "fire", LG, "        A = np.linalg.inv(np.eye(self.p) - W.T)\n", "        if not hasattr(self, '_mixing'):\n            self._mixing = np.linalg.inv(np.eye(self.p) - W.T)\n        A = self._mixing\n", rule="HISTORY.lganm", what="mixing matrix of the first call reused by later (intervened) calls")
+V("c02-noise-cache", "C02", "fire", AN, "                    noise = self.noise_distributions[i](n)\n                X[:, i] = assignment + noise\n", "                    if not hasattr(self, '_last_noise'):\n                        self._last_noise = {}\n                    noise = self._last_noise.setdefault((i, n), self.noise_distributions[i](n))\n                X[:, i] = assignment + noise\n", rule="HISTORY.sample", what="noise draws memoised on the model", accept_inconclusive=True)
+V("c03-lganm-gate-conditional", "C03", "fire", LG, "        if not utils.is_dag(W):\n            raise ValueError(\"The given graph is not a DAG.\")\n        self.W = W.copy()\n",
+  "        self.W = W.copy()\n        if debug_checks:\n            if not utils.is_dag(W):\n                raise ValueError(\"The given graph is not a DAG.\")\n", rule="GATE",
+  more=[(LG, "    def __init__(self, W, means, variances, random_state=None):", "    def __init__(self, W, means, variances, random_state=None, debug_checks=False):")], what="gate only under an optional flag, matrix stored regardless")
+V("c03-silent-anm-store-first", "C03", "silent", AN, "        self.ordering = utils.topological_ordering(A)\n        self.p = len(A)\n        self.A = deepcopy(A)\n", "        self.A = deepcopy(A)\n        self.p = len(A)\n        self.ordering = utils.topological_ordering(self.A)\n", what="matrix copied first, ordering computed from the copy")
+V("c02-silent-anm-store-first", "C02", "silent", AN, "        self.ordering = utils.topological_ordering(A)\n        self.p = len(A)\n        self.A = deepcopy(A)\n", "        self.A = deepcopy(A)\n        self.p = len(A)\n        self.ordering = utils.topological_ordering(self.A)\n", what="matrix copied first, ordering computed from the copy")
+
+# ------------------------------------------------------------------------------- round-3 inspired
+V("c12-message-unpacks-tuple", "C12", "fire", GE, "            \"The (max.) intervention size cannot be larger than the number of variables.\")", "            \"The (max.) intervention size cannot be larger than the number of variables (size=%s).\" % size)", rule="GUARD.message", what="% formatting with a size that may be a (lo, hi) tuple: TypeError instead of ValueError")
+V("c12-silent-message-tuple-wrapped", "C12", "silent", GE, "            \"The (max.) intervention size cannot be larger than the number of variables.\")", "            \"The (max.) intervention size cannot be larger than the number of variables (size=%s).\" % (size,))", what="operand wrapped in a 1-tuple")
+V("c12-silent-message-format", "C12", "silent", GE, "            \"The (max.) intervention size cannot be larger than the number of variables.\")", "            \"The (max.) intervention size cannot be larger than the number of variables (size={}).\".format(size))", what="str.format")
+V("c17-memoised-generator", "C17", "fire", UT, "from functools import reduce\n", "from functools import reduce, lru_cache\n\n\n@lru_cache(maxsize=None)\ndef _generator(random_state):\n    return np.random.default_rng(random_state)\n", rule="SEED.shuffle",
+  more=[(UT, "    rng = np.random.default_rng(random_state)\n    for sample in data:", "    rng = _generator(random_state)\n    for sample in data:")], what="memoised generator: the second call with the same seed continues the stream")
+V("c13-memoised-generator", "C13", "fire", UT, "from functools import reduce\n", "from functools import reduce, lru_cache\n\n\n@lru_cache(maxsize=None)\ndef _generator(random_state):\n    return np.random.default_rng(random_state)\n", rule="R1.generator",
+  more=[(UT, "    rng = np.random.default_rng(random_state)\n    for sample in data:", "    rng = _generator(random_state)\n    for sample in data:")], what="memoised generator: the second call with the same seed continues the stream")
+V("c17-silent-generator-helper", "C17", "silent", UT, "from functools import reduce\n", "from functools import reduce\n\n\ndef _generator(random_state):\n    return np.random.default_rng(random_state)\n",
+  more=[(UT, "    rng = np.random.default_rng(random_state)\n    for sample in data:", "    rng = _generator(random_state)\n    for sample in data:")], what="plain helper that builds the generator")
+V("c13-silent-generator-helper", "C13", "silent", UT, "from functools import reduce\n", "from functools import reduce\n\n\ndef _generator(random_state):\n    return np.random.default_rng(random_state)\n",
+  more=[(UT, "    rng = np.random.default_rng(random_state)\n    for sample in data:", "    rng = _generator(random_state)\n    for sample in data:")], what="plain helper that builds the generator")
+V("c17-tol-abs-of-comparison", "C17", "fire", UT, "    if abs(np.sum(ratios) - 1) > 1e-9:", "    if abs(np.sum(ratios) - 1 > 1e-9):", rule="TOL.guard", what="parenthesis moved: abs() of a boolean, one-sided test")
+DRF_DRAW = "                for j in range(n): \n                  ids = np.random.choice(range(Y.shape[0]), 1, p=weights[i, :])[0]\n                  ret.sample[i,:, j] = Y.iloc[ids,:]\n"
+V("c19-forest-sparse-support-unmapped", "C19", "fire", DR, DRF_DRAW, "                support = np.flatnonzero(weights[i, :])\n                for j in range(n):\n                  ids = np.random.choice(len(support), 1, p=weights[i, support])[0]\n                  ret.sample[i,:, j] = Y.iloc[ids,:]\n",
+  rule="FOREST.sample-rows", what="position among the non-zero weights used as a training row")
+V("c19-silent-forest-sparse-support-mapped", "C19", "silent", DR, DRF_DRAW, "                support = np.flatnonzero(weights[i, :])\n                for j in range(n):\n                  ids = np.random.choice(len(support), 1, p=weights[i, support])[0]\n                  ret.sample[i,:, j] = Y.iloc[support[ids],:]\n",
+  what="position mapped back through the support")
+V("c19-silent-forest-count", "C19", "silent", DR, "np.random.choice(range(Y.shape[0]), 1, p=weights[i, :])[0]", "np.random.choice(len(Y), 1, p=weights[i, :])[0]", what="population given as a count")
+V("c19-forest-weights-of-other-point", "C19", "fire", DR, "np.random.choice(range(Y.shape[0]), 1, p=weights[i, :])[0]", "np.random.choice(range(Y.shape[0]), 1, p=weights[0, :])[0]", rule="FOREST.sample-rows", what="weights of the first test point for every row")
+V("c19-forest-column-weights", "C19", "fire", DR, "np.random.choice(range(Y.shape[0]), 1, p=weights[i, :])[0]", "np.random.choice(range(Y.shape[0]), 1, p=weights[:, i])[0]", rule="FOREST.sample-rows", what="column of the weight matrix", accept_inconclusive=True)
